@@ -67,6 +67,9 @@ func init() {
 			return timeValue(t.AddDate(int(y), int(m), int(d)))
 		}
 		s := a[0].(Struct)
+		if okT {
+			s = timeValue(t.Round(0)).(Struct) // AddDate works on the wall clock: the monotonic reading is dropped
+		}
 		wall := termOf(s[0])
 		if !wall.IsConst() || wall.C&hasMonotonic != 0 {
 			panic(unmodelled{"AddDate on a time with monotonic reading"})
